@@ -555,6 +555,22 @@ def family_naming():
             specs.append(Spec(nodes, (0, 'val'), naming='adversarial', label='adversarial names flags=%s' % ((he, hc, he2, hc2),), family='naming'))
     nodes = [Node(FUNC, deps=[(1, 'val'), (2, 'ptr')], has_err=True), Node(VALUE), Node(WSTRUCT, deps=[(3, 'val')], extra_fields=1), Node(FUNC, has_err=True, has_cleanup=True)]
     specs.append(Spec(nodes, (0, 'val'), naming='adversarial', label='adversarial names with value and struct', family='naming'))
+    # the type whose derived local name is cleanup / err / cleanup2 / err2 is produced by the very call whose cleanup
+    # and error variables are being named, as the first, second or third cleanup-returning call of the injector
+    pool = ['Cleanup', 'Err', 'Cleanup2', 'Err2', 'Cleanup3']
+    for order in itertools.permutations(pool, 3):
+        if order[0] > order[1] and order[2] != 'Cleanup':
+            continue    # keep about half of the orders, all of those that call Cleanup first
+        nodes = [Node(FUNC, deps=[(1, 'val')], has_err=True, has_cleanup=True, name=order[2]),
+                 Node(FUNC, deps=[(2, 'val')], has_err=True, has_cleanup=True, name=order[1]),
+                 Node(FUNC, has_err=True, has_cleanup=True, name=order[0])]
+        specs.append(Spec(nodes, (0, 'val'), naming='adversarial', label='types named %s, %s, %s returned together with a cleanup and an error, called in this order' % order, family='naming'))
+    for nm_ in ('Cleanup', 'Err'):
+        for he, hc in FLAGS[1:]:
+            nodes = [Node(FUNC, has_err=he, has_cleanup=hc, name=nm_)]
+            specs.append(Spec(nodes, (0, 'val'), naming='adversarial', label='single provider of a type named %s err=%s cleanup=%s' % (nm_, he, hc), family='naming'))
+            nodes = [Node(FUNC, has_err=he, has_cleanup=hc, name=nm_, ptr=True)]
+            specs.append(Spec(nodes, (0, 'ptr'), naming='adversarial', label='single provider of a pointer to a type named %s err=%s cleanup=%s' % (nm_, he, hc), family='naming'))
     return specs
 
 
@@ -749,6 +765,36 @@ def family_values():
     }
     specs.append(RawSpec(files, 'rejected value form: unexported identifier of another package', expect='reject', reject_props=['C13'], family='values',
                          extra_pkgs={'q': {'q.go': 'package q\n\nimport "github.com/google/wire"\n\nvar hidden = 3\nvar Set = wire.NewSet(wire.Value(hidden))\n'}}))
+    # every other way an expression written in another package can mention something the injector's package cannot
+    qd = ('type Cfg struct{ Retries int; retries int }\nfunc (c Cfg) hiddenM() int { return 1 }\nfunc (c Cfg) Shown() int { return 1 }\nvar Default = Cfg{Retries: 1, retries: 3}\nvar PDefault = &Default\n'
+          'type hiddenInt int\nconst hiddenConst = 4\nfunc hiddenFunc() int { return 1 }\ntype wrap struct{ N int }\nvar Nested = struct{ Inner Cfg }{}\n')
+    inacc = [
+        ('unexported field selected from an exported variable', 'wire.Value(Default.retries)', 'int'),
+        ('unexported field selected through an exported pointer variable', 'wire.Value(PDefault.retries)', 'int'),
+        ('unexported field selected two levels down', 'wire.Value(Nested.Inner.retries)', 'int'),
+        ('composite literal with an unexported field key', 'wire.Value(Cfg{retries: 3})', 'q.Cfg'),
+        ('unexported method value', 'wire.Value(Default.hiddenM)', 'func() int'),
+        ('conversion through an unexported type', 'wire.Value(int(hiddenInt(3)))', 'int'),
+        ('unexported constant', 'wire.Value(hiddenConst + 1)', 'int'),
+        ('unexported function value', 'wire.Value(hiddenFunc)', 'func() int'),
+        ('composite literal of an unexported type', 'wire.Value(wrap{N: 1}.N)', 'int'),
+        ('unexported field inside an index expression', 'wire.Value([]int{1, 2, 3, 4}[Default.retries])', 'int'),
+    ]
+    for lab, item, rty in inacc:
+        files = {
+            'providers.go': 'package {PKG}\n',
+            'wire.go': '//go:build wireinject\n// +build wireinject\n\npackage {PKG}\n\nimport (\n\t"github.com/google/wire"\n\t"example.com/corpus/{PKG}/q"\n)\n\nvar _ q.Cfg\n\nfunc Inject() %s {\n\tpanic(wire.Build(q.Set))\n}\n' % rty,
+        }
+        specs.append(RawSpec(files, 'rejected value form: written in another package, ' + lab, expect='reject', reject_props=['C13'], family='values',
+                             extra_pkgs={'q': {'q.go': 'package q\n\nimport "github.com/google/wire"\n\n%s\nvar Set = wire.NewSet(wire.Value(%s))\n' % (qd, item[len('wire.Value('):-1])}}))
+    # ... and the accessible counterparts (exported field / method value of an exported variable) are accepted
+    files = {
+        'providers.go': 'package {PKG}\n',
+        'wire.go': '//go:build wireinject\n// +build wireinject\n\npackage {PKG}\n\nimport (\n\t"github.com/google/wire"\n\t"example.com/corpus/{PKG}/q"\n)\n\nfunc Inject() int {\n\tpanic(wire.Build(q.Set))\n}\n\nfunc InjectM() func() int {\n\tpanic(wire.Build(q.SetM))\n}\n',
+        'zz_driver.go': '//go:build !wireinject\n// +build !wireinject\n\npackage {PKG}\n\nimport "example.com/corpus/vrt"\n\nfunc VDrive() {\n\tvrt.A("C13", Inject() == 1 && InjectM()() == 1, "exported field and method value of an exported variable of another package")\n\tvrt.Cover("values-checked")\n}\n',
+    }
+    specs.append(RawSpec(files, 'value written in another package from an exported field and an exported method value', family='values',
+                         extra_pkgs={'q': {'q.go': 'package q\n\nimport "github.com/google/wire"\n\n%s\nvar Set = wire.NewSet(wire.Value(Default.Retries))\nvar SetM = wire.NewSet(wire.Value(Default.Shown))\n' % qd}}))
     return specs
 
 
